@@ -304,6 +304,7 @@ fn variants(seed: u64) -> Vec<(&'static str, XOpts, Style)> {
         ("ns-prefix", c(), s(&|st| { st.prefix = Some("sc".into()) })),
         ("xmlns-attr-order", c(), s(&|st| { st.xmlns = true; st.shuffle_attrs = true })),
         ("pair-empty", c(), s(&|st| { st.pair_empty = true })),
+        ("foreign-attrs", c(), s(&|st| { st.foreign_attrs = true })),
         ("xinclude", c(), s(&|st| { st.includes = true })),
         ("respell", XOpts { respell: true, seed, ..c() }, s(&|st| { st.escapes = 2 })),
         ("keywords", XOpts { keywords: true, seed, ..c() }, s(&|_| {})),
